@@ -621,6 +621,8 @@ def explore(cx, atom_eval, start=None, stop=()):
         if isinstance(e, ast.Constant) and isinstance(e.value, (bool, type(None))):
             return bool(e.value)
         if isinstance(e, ast.Name) and e.id in env:
+            if env[e.id] == 'SOME':
+                return None
             return False if env[e.id] == 'NONE' else env[e.id]
         if isinstance(e, ast.Compare) and len(e.ops) == 1 and isinstance(e.left, ast.Name) and e.left.id in env \
                 and isinstance(e.comparators[0], ast.Constant) and e.comparators[0].value is None and isinstance(e.ops[0], (ast.Is, ast.IsNot, ast.Eq, ast.NotEq)):
@@ -647,6 +649,7 @@ def explore(cx, atom_eval, start=None, stop=()):
                 return a if a == b else None
             return ev(e.body if t else e.orelse, env)
         return None
+    loop_vars = {x.id for n_ in cfg.nodes if n_.kind == 'for' for x in ast.walk(n_.ast.target) if isinstance(x, ast.Name)}
     seen = set()
     todo = [(start or cfg.entry, ())]
     out = set()
@@ -673,6 +676,15 @@ def explore(cx, atom_eval, start=None, stop=()):
                     v = ev(n.ast.value, dict(envt))
                     if v is not None:
                         env[tg[0].id] = v
+                    elif isinstance(n.ast.value, ast.IfExp) and ev(n.ast.value.test, dict(envt)) is not None:
+                        br = n.ast.value.body if ev(n.ast.value.test, dict(envt)) else n.ast.value.orelse
+                        if isinstance(br, ast.Constant) and br.value is None:
+                            env[tg[0].id] = 'NONE'
+                        elif isinstance(br, (ast.Attribute, ast.Constant, ast.Tuple, ast.List, ast.Dict, ast.JoinedStr)):
+                            env[tg[0].id] = 'SOME'      # a constant / display: not None
+                    elif isinstance(n.ast.value, ast.Name) and n.ast.value.id in loop_vars:
+                        # `found = item` inside a search loop: the element found, not None (stated assumption: collections searched hold no None)
+                        env[tg[0].id] = 'SOME'
         elif n.kind in ('for', 'with', 'handler'):
             for (nm, _) in cfg.defs_of(n):
                 env.pop(nm, None)
@@ -961,3 +973,26 @@ def memo_rule(R, oid, modules, why):
                'return the same object, and a change made to it in place (by a caller or by the library) shows in the result of every later call', f.loc(memo[0]))
     R.ok(oid, f'{len(modules)} module(s) :: functions examined', '', f'{n} functions')
     return n
+
+
+def new_callees(R, cx, depth=2):
+    """contexts of the functions cx calls that did not exist in the reference tree and could not be expanded in place (a helper used inside a
+    comprehension, a generator helper, a decorated helper): the statements a rule looks for in cx may stand there now"""
+    from ..inline import _resolve, baseline
+    base = baseline() or set()
+    out, seen, todo = [], {cx.qual}, [(cx, 0)]
+    while todo:
+        c, d = todo.pop()
+        for x in ast.walk(c.f.node):
+            if isinstance(x, ast.Call):
+                try:
+                    q = _resolve(R.P, c.f, x)
+                except Exception:
+                    q = None
+                if isinstance(q, str) and q in R.P.funcs and q not in base and q not in seen:
+                    seen.add(q)
+                    c2 = ctx(R, q)
+                    out.append(c2)
+                    if d + 1 < depth:
+                        todo.append((c2, d + 1))
+    return out
